@@ -8,12 +8,13 @@ import common as C
 
 PID = "C18"
 DRIVER = [("C18", "TfPwaV.Model.Data", "Data.handle"), ("C18b", "TfPwaV.Model.DataX", "DataX.handle"),
-          ("C18c", "TfPwaV.Model.DataY", "DataY.handle")]
-LEAN_TARGETS = ["TfPwaV.Props.C18", "TfPwaV.Props.C18b", "TfPwaV.Props.C18c"]
-PROP_MODULES = ["TfPwaV.Props.C18", "TfPwaV.Props.C18b", "TfPwaV.Props.C18c"]
+          ("C18c", "TfPwaV.Model.DataY", "DataY.handle"), ("C18d", "TfPwaV.Model.DataZ", "DataZ.handle")]
+LEAN_TARGETS = ["TfPwaV.Props.C18", "TfPwaV.Props.C18b", "TfPwaV.Props.C18c", "TfPwaV.Props.C18d"]
+PROP_MODULES = ["TfPwaV.Props.C18", "TfPwaV.Props.C18b", "TfPwaV.Props.C18c", "TfPwaV.Props.C18d"]
 ALL_MODULES = ["TfPwaV.Model.Data", "TfPwaV.Proofs.Data", "TfPwaV.Props.C18",
                "TfPwaV.Model.DataX", "TfPwaV.Proofs.DataX", "TfPwaV.Props.C18b",
-               "TfPwaV.Model.DataY", "TfPwaV.Proofs.DataY", "TfPwaV.Props.C18c"]
+               "TfPwaV.Model.DataY", "TfPwaV.Proofs.DataY", "TfPwaV.Props.C18c",
+               "TfPwaV.Model.DataZ", "TfPwaV.Proofs.DataZ", "TfPwaV.Props.C18d"]
 ASSUMPTIONS = [
     "leaves are arrays with >= 1 axis whose leading axis is the event axis (axis=0 of data_split/data_merge); 0-d leaves raise in _data_split and are outside the model",
     "a leaf is modelled by the list of its rows; inner shape and dtype are carried by numpy/tf slicing and concat unchanged (validated by the numpy oracle, not modelled)",
@@ -25,7 +26,7 @@ ASSUMPTIONS = [
     "np.savetxt/np.loadtxt/np.save/np.load reproduce float64 values exactly (checked on integer-valued data)",
     "LazyCall batches are consumed by iteration (for ... in L, as batch_call does); list(L) additionally calls LazyCall.__len__ = data_shape(eval of x), which raises for an x without arrays (not part of the model)",
     "LazyCall: the plain and the nested (x is a LazyCall) branches of __iter__ are modelled (fixed code: _split_extra); the HeavyCall branch ({**i, **j} over cached_batch[batch_size], populated by as_dataset) is compared with the same model lazyIterF on dict-only data (correspondence) and with the eager value {**f(x), **extra} by the search (plain iteration, data_split+data_merge, batch_call, eval; alone, via data_replace, inside and around plain LazyCalls; extras colliding with output keys and not)",
-    "outside the model (parameters, only exercised): tf.data itself (Dataset.from_tensor_slices(...).batch(b).map(f) is taken to yield f on the row windows, prefetch/AUTOTUNE order-preserving), tf.function tracing of the heavy function, tf.data's Dataset.cache itself (the naming of the cache per batch size and the re-reading with other batch sizes / from a second object are exercised by the search, harness/c18_z.py), LazyFile (from_generator, mmap), LazyCall.merge of HeavyCall objects, lists inside x of a HeavyCall (from_tensor_slices turns a list into one tensor)",
+    "outside the model (parameters, only exercised): tf.data itself (Dataset.from_tensor_slices(...).batch(b).map(f) is taken to yield f on the row windows, prefetch/AUTOTUNE order-preserving), tf.function tracing of the heavy function, tf.data's Dataset.cache itself (taken to replay an existing complete cache file and to write one on the first complete pass: model TfPwaV.DataZ.readThrough; the NAMING of the cache per batch size is modelled and proved to separate batch sizes, C18d.cache_key_separates_batch_sizes, compared with the files as_dataset creates, and the re-reading with other batch sizes / from a second object is exercised by the search, harness/c18_z.py), tf.data.Dataset.from_generator of LazyFile (taken to yield what the generator yields) and numpy memory maps (mmap_mode='r' slices = array slices: exercised on real npy files), LazyCall.merge of HeavyCall objects, lists inside x of a HeavyCall (from_tensor_slices turns a list into one tensor)",
     "C18b (model TfPwaV.DataX): data_cut is modelled for one comparison 'v <cmp> c' on one addressed 1-d array (var_map path); the sympy parsing / lambdify of the expression is a parameter (validated on the 4 comparison operators)",
     "C18b: flatten_dict_data keys are modelled as strings ('#i' = Python int i, '@name' = key object printing as name; str() of a key = strKey); the theorem flatten_lossless assumes that no two assignments of the loop use the same key (NoColl) -- the colliding case is a proved and observed loss (flatten_collision_loses), reported as a limitation of the function, not as a violation of C18",
     "C18b: a LazyCall object is modelled by (x, extra, batch_size) in a pure model: object identity / aliasing (copy() must not share the extra dict) is checked by the search only; cached_batch, cached_file, name, prefetch are not modelled",
@@ -37,7 +38,11 @@ ASSUMPTIONS = [
     "C18c: the items (s, l) of get_chains_map() are a parameter of the model (name pairs in iteration order); DecayGroup.get_chains_map / topology_map themselves are not modelled here",
     "C18c: data_cut expressions: grammar & | ~, < <= > >=, + - *, unary minus, integer literals, names; every variable addresses a 1-d array of integer-valued float64; sympy.sympify / lambdify are parameters (validated on every generated expression); expressions in which sympify eliminates a variable or folds to a constant are skipped and counted (the real data_cut raises NameError there: free_symbols are taken from the simplified expression, lambdify gets the string); Eq/Ne, ^, /, ** are not in the grammar; variable arrays of different sizes (TF broadcasting) are outside the model",
     "C18c: LazyCall objects with identities: x and the attached values are opaque identities, the heap holds the extra dicts; batch_size / cached_batch / cached_file / name / prefetch are not in the heap model; LazyCall.merge (fresh x and extra) is not an operation of the heap model",
-    "C18c: data_merge of arbitrary LazyCalls (op lmerge): eval() of the merged object and data_merge of the eager values are both computed by the model and compared with the code; their equality (lazy_merge_eq_eager_merge) is NOT proved: it is tested by the search under the hypothesis that an attached key which is also an output key of f is attached to all operands or to none (outside it the two sides do differ: counted as lazy_merge_excluded_differs, not a C18 violation: the operands are then not pieces of one sample); tf.concat of an array with an empty Python list is outside the model",
+    "C18c/C18d: data_merge of arbitrary LazyCalls (ops lmerge, lmiter): eval() / iteration of the merged object and data_merge / data_split of the eager values are computed by the model and compared with the code; their equality is PROVED (C18d.lazy_merge_eq_eager_merge, merged_iter_eq_split_eager) key by key (Python dict equality; the key order of data_merge comes out of a set) under: data_merge of the x and of the extras succeeds (matching structures / inner shapes), f returns dicts and f(merge of x) = merge of the f(x_i), outputs and extras are dicts without repeated keys, and an attached key that is an output key of f for some operand is attached to all operands or to none (outside it the two sides do differ: C18d.lazy_merge_excluded_differs; counted by the search as lazy_merge_excluded_differs, not a C18 violation); tf.concat of an array with an empty Python list is outside the model",
+    "C18d (model TfPwaV.DataZ): save_data / save_dataz / load_data are modelled at the level of what np.save / np.savez store (np.asanyarray: a dict becomes a 0-d object array holding the pickled object, an array stays an array) and of the try / except IndexError / except ValueError chain of load_data; pickling itself (structure, container types, key order, values of the object) is numpy's and is validated on real files, not modelled; a list / tuple at top level (np.asanyarray stacks it into one array or raises) is outside the model; the harness observes whether load_data is the code before or after fixes/C18-fix_load_data_bare_array.diff and drives the matching model variant",
+    "C18d: flat npz files: np.savez(file, **flatten_dict_data(d)) needs str keys at the top level of d (BaseParticle keys below are str()-ed by the flattening); keys of the file = keys of the flat dict in order; tf_pwa has no function rebuilding the containers from a flat file -- dataz_roundtrip states that reading by joined key returns the addressed array (what NpzData.load_data does with npz[str(k)]), not a rebuild; empty containers are not recorded in the file",
+    "C18d: LazyCall(HeavyCall(g), LazyFile(x)): the cached pipeline is modelled as (data_split(x, b)).map(g); g in the correspondence is testF 0 / 3 on dict-only x (tf output signatures), x in memory or memory-mapped from an npy file through load_dat_file(mmap_mode='r')",
+    "C18d: cache: one sample name per directory in the correspondence; the store is a map cache-file name -> batches of the first complete pass; partial passes (tf.data writes the cache only when the pass completes) and concurrent writers are outside the model; str(batch) is Nat.repr (decimal), the concatenation cached_file + name + '_' + str(batch) is proved injective in the batch size for fixed directory and name (injectivity in the PAIR (name, batch) -- the decimal digits contain no '_' -- is not proved; merged LazyCalls get the name name0_name1_..., not covered)",
     "the theorems named without suffix F describe the generator before fix 15c726c (kept: they state exactly what the MAX_ITER branch lost); the suffix-F theorems describe the code now in /repo; the harness observes the variant and compares with the matching model",
 ]
 
@@ -535,6 +540,8 @@ def correspond(ctx, res):
     c18_x.correspond(ctx, res)      # round 2: the rest of data.py + dat_order / side-file plumbing (model TfPwaV.DataX)
     import c18_y
     c18_y.correspond(ctx, res)      # round 4: config_loader/data.py plumbing, data_cut expressions, LazyCall identities (model TfPwaV.DataY)
+    import c18_d
+    c18_d.correspond(ctx, res)      # round 6: merged-LazyCall iteration, save/load files, flat npz, LazyFile under HeavyCall, cache naming (model TfPwaV.DataZ)
 
 
 def canon_ans(s):
@@ -834,6 +841,8 @@ def search(ctx, res):
     c18_x.search(ctx, res)
     import c18_y
     c18_y.search(ctx, res)
+    import c18_d
+    c18_d.search(ctx, res)
 
 
 def search_files(ctx, res, rnd, D, tmp, stats, hard, mult):
@@ -1200,6 +1209,9 @@ def replay(ctx, payload):
     if op == "y_search":
         import c18_y
         return c18_y.replay(ctx, payload)
+    if op == "d_search":
+        import c18_d
+        return c18_d.replay(ctx, payload)
     if op == "split_merge":
         t = unpack(r["tree"])
         b = r["b"]
@@ -1263,7 +1275,7 @@ def replay(ctx, payload):
 
 
 MANIFEST = {
-    "text": "Lean theorems over ALL nested dict/list/tuple data trees (structural induction, arbitrary depth and row type), all batch sizes b>0 and all event counts: the batches of data_split are exactly the row windows [j*b,(j+1)*b) of every leaf and their number is the minimum over the tree of ceil(n/b) (leaf), MAX_ITER (empty dict/list), 0 (empty tuple) (split_eq, split_count, split_sizes); data_merge of the batches is the data cut after (number of batches)*b rows (merge_split_general), hence equals the data when no empty container limits the iteration or ceil(n/b) <= MAX_ITER (merge_split) and provably loses rows otherwise (merge_split_truncated, split_empty_tuple); batch_call f = f(whole sample) for every f commuting with row windows, and the scalar broadcast rule (batch_call_eq, batch_call_scalar); data_mask keeps exactly the selected rows of every leaf in order (mask_leaf); load_dat_file(savetxt(p)) = p for every particle count / event count / number of files holding disjoint particle groups (load_multi_file, load_save_roundtrip); merged LazyCall batches = eval() (lazy_eq_eager); data_index hit/fallback/path rules. For the code after the fix (15c726c, now in /repo) every statement is proved with NO guard on empty containers, empty extra or the number of batches: splitF_batches, splitF_get, merge_splitF, batch_call_eqF, batch_call_scalarF, lazyIterF_batches, lazy_eq_eagerF (plain LazyCall, _split_extra) and lazy_nested_eq_eagerF (LazyCall of a LazyCall). Round 2 (Props/C18b over the model Model/DataX, same quantifiers): a mask and its complement partition the events of every array -- re-interleaving gives the array back, sizes add up (mask_partition), data_merge(data_mask(d,sel), data_mask(d,~sel)) is d with the same row permutation in every array (cut_then_merge), data_cut keeps exactly the events whose addressed entry satisfies the predicate (cut_rows); data_replace sets one key and keeps every other value and the key order (replace_keeps_others, replace_non_dict); data_strip removes the keys at every depth, is idempotent, is the identity on trees without them and keeps the other arrays in order (strip_idempotent, strip_unchanged); data_map functor laws, hence data_to_numpy / data_to_tensor keep structure and values (data_map_id, data_map_comp, data_map_leaves); data_shape = leading size of the first array, all_list in data_map order (data_shape_first, data_shape_uniform); flatten_dict_data holds every array exactly once in order when no joined key collides (flatten_lossless) and provably loses one otherwise (flatten_collision_loses); batch_sum(f) = f(whole sample) for every f additive over row prefixes, no algebraic law on + needed (batch_sum_eq_sum, batch_sum_no_batch); data_index(d, p+q) = data_index(data_index(d,p), q) (index_append); check_nan keeps the structure and flags exactly the arrays with a NaN (check_nan_shape); LazyCall object: L[k]=v; L[k'] (lazy_getitem_set), copy / as_dataset keep x and items (lazy_copy_getitem), L[k] is the value found under k in L.eval() and overrides a same-named output (lazy_getitem_eq), data_replace(L,k,v).eval() differs from L.eval() exactly at k (lazy_replace_eval), data_merge of LazyCalls holding pieces of one sample concatenates x and every attached item in the same piece order (lazy_merge_pieces), LazyCall(g, LazyFile(x)): merged batches = eval() (lazy_file_eq_eager), EvalLazy (eval_lazy_eq); file conventions: SimpleData.savetxt + load_p4 under the same dat_order return every particle its own momenta for EVERY duplicate-free order list, i.e. every permutation and sub-list of the final particles (dat_order_roundtrip, dat_order_independent), particle-major files with order=(0,1,2), split=[N] (load_order012); side files: entry i of the concatenated weight/charge files belongs to event i and masks, batches and merges act on (event, weight) pairs (weights_follow_rows, weights_default). Round 4 (Props/C18c over the model Model/DataY, same kind of quantifiers): the file column -> particle assignment of load_p4 is determined by the card alone, is the identity without dat_order and a permutation of the final particles for every dat_order listing them (dat_order_is_permutation); for ANY files, under a duplicate-free dat_order the array stored under order[idx] is column idx of what load_dat_file cut out, and cal_angle(list) makes the same assignment (load_column_to_particle); get_dat_order(standard=True) (first match) and the re_map of __init__ (last assignment) agree for consistent chain maps, so get_data_index('p', name) addresses the standard name (standard_eq_remap, with the inconsistent case exhibited), and standard names translate back to the order list for injective maps (standard_order_roundtrip); MultiData.get_data returns one data set per sample and sample i is load_data(files[i], **kwargs_i) with kwargs_i[name] = entry i of a per-sample list / the single card value / None (multi_sample_plumbing, multi_flat_files); data_cut with a compound expression (& | ~, < <= > >=, + - *, literals, names) as an AST: the mask computed by whole-array operations, one per node, is the event-wise value of the expression and data_cut keeps exactly the events where it is true (cut_mask_eq_eval), data_cut(e) and data_cut(~e) partition the events and merge back to a row permutation of the data (cut_complement_merge); LazyCall objects with identities: in every heap reachable by any history of LazyCall(...) / L[k]=v / copy() / data_replace two objects never share an extra dict, a copy has the same x and items, and an assignment through one object is invisible through every other (copy_independent). Both models are tied to tf_pwa.data / config_loader.data by exact comparison on random trees, real files, LazyCall objects and SimpleData objects on every run; numpy / path oracles test the statements directly on the implementation, incl. the real ConfigLoader with weight and charge side files in eager and lazy_call mode.",
-    "note": "Models = TfPwaV.Data, TfPwaV.DataX and TfPwaV.DataY (hand-written; generators = lists of yielded values with the MAX_ITER branch and zip truncation mirrored; fixed variant 'finite list | repeat' selected by observing the tree). Validated, not proved: numpy/tf slicing, concat and boolean_mask act row-wise and keep inner shape/dtype; np.savetxt/loadtxt/save/load exactness; save_data/load_data/save_dataz pickling incl. key order; tf.data (HeavyCall) batching; LazyFile's from_generator pipeline; LazyCall.merge of ARBITRARY operands: eval of the merged object and data_merge of the eager values are both modelled (TfPwaV.DataY.eagerMerge, op lmerge) and compared exactly, but their equality lazy_merge_eq_eager_merge (hypothesis: an attached key that is also an output key of f is attached to all operands or to none; key intersection of the other extras) is only tested by the search, not proved, nor is iteration after merge for non-piece operands; sympy.sympify / lambdify of data_cut expressions (every generated expression is run through the real data_cut and compared with the AST model; expressions that sympy simplifies to fewer variables are skipped -- data_cut raises NameError on them); load_extra_var / load_data / get_n_data / get_weight_sign are modelled and compared (ops extravar, multi) without theorems of their own beyond multi_sample_plumbing; the full ConfigLoader path with the real preprocessor (cal_angle, lazy_call mode: search on a 3-body decay, every dat_order in the thorough tier), DecayGroup.get_chains_map behind get_dat_order(standard=True), get_data_index('angle'/'aligned_angle'), weight_smear, process_scale; text/npy/npz round trips (save_data / save_dataz / load_data pickling incl. key order: search only; no flatten/unflatten inverse is proved -- tf_pwa has no unflatten); data_root_lhcb formats are not covered. Observed, not a C18 violation: flatten_dict_data silently overwrites on colliding joined keys and drops empty containers; load_extra_var does not check that a side file has at least n_data entries. Finding of this check, repaired in /repo (15c726c, kind 'fixed' in known_findings.jsonl; the unrepaired variant stays in the model as refutation theorems and is reported under its own key if the fix is reverted): an empty dict/list stopped the iteration after 1000 batches, an empty tuple made data_split yield nothing, LazyCall with empty extra stopped after 1000 batches.",
-    "technique": "Lean 4 proof by structural induction over nested data trees (unbounded sizes) + exact differential correspondence with tf_pwa.data / config_loader.data on random trees, real files, random data_cut expressions, histories of LazyCall object operations, SimpleData / MultiData objects + numpy/path-oracle search on the implementation",
+    "text": "Lean theorems over ALL nested dict/list/tuple data trees (structural induction, arbitrary depth and row type), all batch sizes b>0 and all event counts: the batches of data_split are exactly the row windows [j*b,(j+1)*b) of every leaf and their number is the minimum over the tree of ceil(n/b) (leaf), MAX_ITER (empty dict/list), 0 (empty tuple) (split_eq, split_count, split_sizes); data_merge of the batches is the data cut after (number of batches)*b rows (merge_split_general), hence equals the data when no empty container limits the iteration or ceil(n/b) <= MAX_ITER (merge_split) and provably loses rows otherwise (merge_split_truncated, split_empty_tuple); batch_call f = f(whole sample) for every f commuting with row windows, and the scalar broadcast rule (batch_call_eq, batch_call_scalar); data_mask keeps exactly the selected rows of every leaf in order (mask_leaf); load_dat_file(savetxt(p)) = p for every particle count / event count / number of files holding disjoint particle groups (load_multi_file, load_save_roundtrip); merged LazyCall batches = eval() (lazy_eq_eager); data_index hit/fallback/path rules. For the code after the fix (15c726c, now in /repo) every statement is proved with NO guard on empty containers, empty extra or the number of batches: splitF_batches, splitF_get, merge_splitF, batch_call_eqF, batch_call_scalarF, lazyIterF_batches, lazy_eq_eagerF (plain LazyCall, _split_extra) and lazy_nested_eq_eagerF (LazyCall of a LazyCall). Round 2 (Props/C18b over the model Model/DataX, same quantifiers): a mask and its complement partition the events of every array -- re-interleaving gives the array back, sizes add up (mask_partition), data_merge(data_mask(d,sel), data_mask(d,~sel)) is d with the same row permutation in every array (cut_then_merge), data_cut keeps exactly the events whose addressed entry satisfies the predicate (cut_rows); data_replace sets one key and keeps every other value and the key order (replace_keeps_others, replace_non_dict); data_strip removes the keys at every depth, is idempotent, is the identity on trees without them and keeps the other arrays in order (strip_idempotent, strip_unchanged); data_map functor laws, hence data_to_numpy / data_to_tensor keep structure and values (data_map_id, data_map_comp, data_map_leaves); data_shape = leading size of the first array, all_list in data_map order (data_shape_first, data_shape_uniform); flatten_dict_data holds every array exactly once in order when no joined key collides (flatten_lossless) and provably loses one otherwise (flatten_collision_loses); batch_sum(f) = f(whole sample) for every f additive over row prefixes, no algebraic law on + needed (batch_sum_eq_sum, batch_sum_no_batch); data_index(d, p+q) = data_index(data_index(d,p), q) (index_append); check_nan keeps the structure and flags exactly the arrays with a NaN (check_nan_shape); LazyCall object: L[k]=v; L[k'] (lazy_getitem_set), copy / as_dataset keep x and items (lazy_copy_getitem), L[k] is the value found under k in L.eval() and overrides a same-named output (lazy_getitem_eq), data_replace(L,k,v).eval() differs from L.eval() exactly at k (lazy_replace_eval), data_merge of LazyCalls holding pieces of one sample concatenates x and every attached item in the same piece order (lazy_merge_pieces), LazyCall(g, LazyFile(x)): merged batches = eval() (lazy_file_eq_eager), EvalLazy (eval_lazy_eq); file conventions: SimpleData.savetxt + load_p4 under the same dat_order return every particle its own momenta for EVERY duplicate-free order list, i.e. every permutation and sub-list of the final particles (dat_order_roundtrip, dat_order_independent), particle-major files with order=(0,1,2), split=[N] (load_order012); side files: entry i of the concatenated weight/charge files belongs to event i and masks, batches and merges act on (event, weight) pairs (weights_follow_rows, weights_default). Round 4 (Props/C18c over the model Model/DataY, same kind of quantifiers): the file column -> particle assignment of load_p4 is determined by the card alone, is the identity without dat_order and a permutation of the final particles for every dat_order listing them (dat_order_is_permutation); for ANY files, under a duplicate-free dat_order the array stored under order[idx] is column idx of what load_dat_file cut out, and cal_angle(list) makes the same assignment (load_column_to_particle); get_dat_order(standard=True) (first match) and the re_map of __init__ (last assignment) agree for consistent chain maps, so get_data_index('p', name) addresses the standard name (standard_eq_remap, with the inconsistent case exhibited), and standard names translate back to the order list for injective maps (standard_order_roundtrip); MultiData.get_data returns one data set per sample and sample i is load_data(files[i], **kwargs_i) with kwargs_i[name] = entry i of a per-sample list / the single card value / None (multi_sample_plumbing, multi_flat_files); data_cut with a compound expression (& | ~, < <= > >=, + - *, literals, names) as an AST: the mask computed by whole-array operations, one per node, is the event-wise value of the expression and data_cut keeps exactly the events where it is true (cut_mask_eq_eval), data_cut(e) and data_cut(~e) partition the events and merge back to a row permutation of the data (cut_complement_merge); LazyCall objects with identities: in every heap reachable by any history of LazyCall(...) / L[k]=v / copy() / data_replace two objects never share an extra dict, a copy has the same x and items, and an assignment through one object is invisible through every other (copy_independent). Round 6 (Props/C18d over the model Model/DataZ): data_merge(L0, L1, ...) of ARBITRARY LazyCalls: its eval() equals data_merge of the eager values key by key, for every operand list, under the stated hypothesis that an attached key which is an output key of f is attached to all operands or to none (lazy_merge_eq_eager_merge; the counter-example outside it: lazy_merge_excluded_differs), and iterating the merged object with any batch size yields batch by batch what data_split of the eager merge yields (merged_iter_eq_split_eager); load_data(save_data(d)) = load_data(save_dataz(d)) = d for every dict d through the try/except chain of load_data (save_load_roundtrip), bare arrays: returned unless they have exactly one element / are in an npz file (load_bare_array, load_bare_array_one: the boundary behaviour reported as a finding); np.savez(**flatten_dict_data(d)) read back by key: keys in loop order, every array once, and npz[joined key of a path] = the array that path addresses, for every path, under the no-collision guard, where the addressed array is the one data_index returns (dataz_roundtrip, index_exact_is_data_index; dataz_collision_loses outside the guard); LazyCall(HeavyCall(g), LazyFile(x)): the batches are the row windows of eval() (lazy_file_batches); the cache file name of as_dataset is injective in the batch size and, for every history of batch sizes read by new objects over a consistent store, every pass sees its own batches (cache_name_injective, cache_key_separates_batch_sizes), whereas the name without the batch size replays stale batches (cache_without_batch_size_replays_stale = seeded change C18-03). All models are tied to tf_pwa.data / config_loader.data by exact comparison on random trees, real files, LazyCall objects and SimpleData objects on every run; numpy / path oracles test the statements directly on the implementation, incl. the real ConfigLoader with weight and charge side files in eager and lazy_call mode.",
+    "note": "Models = TfPwaV.Data, TfPwaV.DataX, TfPwaV.DataY and TfPwaV.DataZ (hand-written; generators = lists of yielded values with the MAX_ITER branch and zip truncation mirrored; fixed variant 'finite list | repeat' selected by observing the tree). Validated, not proved: numpy/tf slicing, concat and boolean_mask act row-wise and keep inner shape/dtype; np.savetxt/loadtxt/save/load exactness; save_data/load_data/save_dataz pickling incl. key order; tf.data (HeavyCall) batching; LazyFile's from_generator pipeline; LazyCall.merge: proved for arbitrary operands only under the hypotheses listed in the assumptions (f event-wise on the operands, output keys attached to all or none) and key by key (dict equality, not key order); sympy.sympify / lambdify of data_cut expressions (every generated expression is run through the real data_cut and compared with the AST model; expressions that sympy simplifies to fewer variables are skipped -- data_cut raises NameError on them); load_extra_var / load_data / get_n_data / get_weight_sign are modelled and compared (ops extravar, multi) without theorems of their own beyond multi_sample_plumbing; the full ConfigLoader path with the real preprocessor (cal_angle, lazy_call mode: search on a 3-body decay, every dat_order in the thorough tier), DecayGroup.get_chains_map behind get_dat_order(standard=True), get_data_index('angle'/'aligned_angle'), weight_smear, process_scale; text/npy/npz round trips: numpy's pickling of the object inside the file (structure, container types incl. nested tuples / lists, key order, values) is compared on real files on every run (ops fileio, flatnpz, search) but is numpy's, not modelled; no rebuild of containers from a flat npz is proved -- tf_pwa has none; tf.data (from_generator, cache) and numpy memory maps are parameters of the model, exercised on real files; root files: root_io.save_dict_to_root / load_root_data are exercised by the search when uproot imports (two trees, two files, event concatenation), not modelled; the root_lhcb data mode (config_loader/data_root_lhcb.py) is not covered. Proposed finding of round 6 (fixes/C18-fix_load_data_bare_array.diff, keys load_data:bare-array:one-element / load_data:bare-array:npz): load_data returns a Python scalar for a saved bare array with ONE element and raises for a bare array saved with save_dataz; dicts are not affected; the model has both variants and the harness observes which one the tree implements. Observed, not a C18 violation: flatten_dict_data silently overwrites on colliding joined keys and drops empty containers; load_extra_var does not check that a side file has at least n_data entries. Finding of this check, repaired in /repo (15c726c, kind 'fixed' in known_findings.jsonl; the unrepaired variant stays in the model as refutation theorems and is reported under its own key if the fix is reverted): an empty dict/list stopped the iteration after 1000 batches, an empty tuple made data_split yield nothing, LazyCall with empty extra stopped after 1000 batches.",
+    "technique": "Lean 4 proof by structural induction over nested data trees (unbounded sizes) + exact differential correspondence with tf_pwa.data / config_loader.data on random trees, real files, random data_cut expressions, histories of LazyCall object operations, SimpleData / MultiData objects, merged LazyCalls, npy / npz / memory-mapped files and tf.data cache files + numpy/path-oracle search on the implementation",
 }
